@@ -1422,6 +1422,64 @@ func emitStruct() {
 	}
 	e.f("/-- loop condition of the CER transmission loop in `handshake` -/\ndef handshakeLoopCond : String := %s\n", leanStr(bound("handshake")))
 	e.f("/-- loop condition of the DWR transmission loop in `dwr` -/\ndef dwrLoopCond : String := %s\n", leanStr(bound("dwr")))
+	// Server.Serve: the accept loop
+	retryCond, resets, spawn, deferLClose := "unrecognised", false, false, false
+	first, factor, maxd := 0, 0, 0
+	durMs := func(x string) int {
+		x = strings.Trim(x, "()")
+		parts := strings.Split(x, "*")
+		if len(parts) != 2 {
+			return 0
+		}
+		n, err := strconv.Atoi(strings.TrimSpace(parts[0]))
+		if err != nil {
+			return 0
+		}
+		switch strings.TrimSpace(parts[1]) {
+		case "time.Millisecond":
+			return n
+		case "time.Second":
+			return n * 1000
+		}
+		return 0
+	}
+	if fd := findFunc(srv, "Server", "Serve"); fd != nil {
+		if len(fd.Body.List) > 0 {
+			if ds, ok := fd.Body.List[0].(*ast.DeferStmt); ok && exprString(ds.Call) == "l.Close()" {
+				deferLClose = true
+			}
+		}
+		ast.Inspect(fd, func(n ast.Node) bool {
+			switch x := n.(type) {
+			case *ast.IfStmt:
+				if x.Init != nil && strings.Contains(exprString(x.Cond), "ne.") {
+					retryCond = exprString(x.Cond)
+				}
+			case *ast.AssignStmt:
+				if len(x.Lhs) == 1 && len(x.Rhs) == 1 {
+					l, r := exprString(x.Lhs[0]), exprString(x.Rhs[0])
+					switch {
+					case l == "tempDelay" && x.Tok == token.ASSIGN && r == "0":
+						resets = true
+					case l == "tempDelay" && x.Tok == token.ASSIGN && durMs(r) > 0:
+						first = durMs(r)
+					case l == "tempDelay" && x.Tok == token.MUL_ASSIGN:
+						factor, _ = strconv.Atoi(r)
+					case l == "max" && durMs(r) > 0:
+						maxd = durMs(r)
+					}
+				}
+			case *ast.GoStmt:
+				if exprString(x.Call.Fun) == "c.serve" {
+					spawn = true
+				}
+			}
+			return true
+		})
+	}
+	e.f("/-- `Server.Serve`: condition under which an Accept error is retried -/\ndef acceptRetryCond : String := %s\n", leanStr(retryCond))
+	e.f("/-- back-off of the accept loop in milliseconds: first delay, multiplier, cap -/\ndef acceptBackoffFirstMs : Nat := %d\ndef acceptBackoffFactor : Nat := %d\ndef acceptBackoffMaxMs : Nat := %d\n", first, factor, maxd)
+	e.f("def acceptResetsDelay : Bool := %s\ndef acceptSpawnsServe : Bool := %s\ndef serveDefersListenerClose : Bool := %s\n", boolLean(resets), boolLean(spawn), boolLean(deferLClose))
 	e.f("end Gen\n")
 	e.write("Struct.lean")
 }
